@@ -210,9 +210,9 @@ def fdtCache (cc : CacheCtl) (now : Nat) : CacheX :=
   | .expiresAt t => .expires (ntpSecs t)
 
 /-- the per-file FEC-OTI attributes written by `to_file_xml`:
-    RaptorQ -> the file's own (Z-adjusted) OTI; otherwise only a per-object override (as given) -/
+    RaptorQ and Raptor -> the file's own (Z-adjusted) OTI; otherwise only a per-object override (as given) -/
 def fileOtiAttrs (fd : FileDesc) : OtiAttrs :=
-  if fd.oti.enc = 6 then getAttributes fd.oti
+  if fd.oti.enc = 6 ∨ fd.oti.enc = 1 then getAttributes fd.oti
   else match fd.attrs.oti with
     | some o => getAttributes o
     | none => noAttrs
@@ -229,10 +229,10 @@ def toFileXml (fd : FileDesc) (now : Nat) : AFile :=
     oti := fileOtiAttrs fd
     cache := fd.attrs.cache.map (fun cc => fdtCache cc now)
     etag := fd.attrs.etag
-    groups := [] }
+    groups := fd.attrs.groups.getD [] }
 
-/-- the FDT-level FEC-OTI attributes: none for a RaptorQ session default -/
-def fdtOtiAttrs (o : Oti) : OtiAttrs := if o.enc = 6 then noAttrs else getAttributes o
+/-- the FDT-level FEC-OTI attributes: none for a RaptorQ / Raptor session default (Z is per object) -/
+def fdtOtiAttrs (o : Oti) : OtiAttrs := if o.enc = 6 ∨ o.enc = 1 then noAttrs else getAttributes o
 
 /-- files listed by an instance built now -/
 def listedFiles (s : State) : List FileDesc :=
@@ -445,8 +445,7 @@ def recvOti (a : OtiAttrs) : Rs (Option Oti) :=
   | some enc, some maxSbl, some esl =>
     if !validEnc enc then .ok none else
     let maxN := a.maxN.getD maxSbl
-    -- `maxN - maxSbl` on u64: panics in the dev profile when maxN < maxSbl (D10)
-    if maxN < maxSbl then .error "sub overflow" else
+    -- `maxN.saturating_sub(maxSbl)` (D10 repaired: was a plain u64 subtraction, panicking when maxN < maxSbl)
     let parity := maxN - maxSbl
     .ok (some { enc := enc, inst := (a.inst.getD 0) % 65536, maxSbl := maxSbl % 2^32, esl := esl % 65536,
                 parity := parity % 2^32, scheme := decodeScheme enc a.ssi })
@@ -513,14 +512,17 @@ structure RMeta where
   groups : List String
   deriving DecidableEq, Repr, Inhabited
 
-/-- `attach_fdt` + `create_meta`: `.error` = panic, `none` = no OTI resolvable (no writer is created) -/
-def recvMeta (fdt : AbsFdt) (f : AFile) : Rs (Option RMeta) :=
+/-- `attach_fdt` + `create_meta`: `.error` = panic, `none` = no OTI resolvable (no writer is created).
+    `rd` is the XML library's reading of element text (quick-xml normalises end-of-line characters in
+    element content - an explicit parameter, instantiated with the concrete normaliser in the driver;
+    attribute values are read verbatim). -/
+def recvMeta (rd : String → String) (fdt : AbsFdt) (f : AFile) : Rs (Option RMeta) :=
   match recvOtiForFile fdt f with
   | .error w => .error w
   | .ok none => .ok none
   | .ok (some o) =>
     .ok (some { location := f.location, contentLength := f.contentLength, transferLength := recvTransferLength f,
                 contentType := f.contentType, cenc := recvCenc f, md5 := f.md5, oti := o,
-                cache := recvCache fdt f, etag := f.etag, groups := fdt.groups ++ f.groups })
+                cache := recvCache fdt f, etag := f.etag, groups := (fdt.groups ++ f.groups).map rd })
 
 end Flute.FdtAbs
